@@ -6,6 +6,7 @@ mod c12;
 mod c12n;
 mod nodea;
 mod nodeg;
+mod nodel;
 mod c13;
 mod c14;
 mod c15;
@@ -27,6 +28,7 @@ fn main() {
     match (args.prop.as_str(), mode.as_str()) {
         (_, "node-gossip") => nodeg::run(&args, &mut rep),
         (_, "node-absurd") => nodea::run(&args, &mut rep),
+        (_, "node-limits") => nodel::run(&args, &mut rep),
         ("C13", _) => c13::run(&args, &mut rep),
         ("C14", _) => c14::run(&args, &mut rep),
         ("C15", _) => c15::run(&args, &mut rep),
